@@ -1102,8 +1102,42 @@ fn run_c21(seed: u64, n: usize, oracle_only: bool, out: &mut Out) {
     let mut stats = new_stats();
     fixed_probes(&schema, out);
     sibling_probe(out, oracle_only);
-    for i in 0..n {
-        let c = gen_case(&mut rng, &schema, &mut stats, 0);
+    // a targeted family next to the grammar-generated queries: deep @recurse through the edge that
+    // needs the implicit coercion (Item.up leads to Thing, which has no `up`), where vertices that
+    // are not Items appear at depth >= 2 and must not be handed to resolve_neighbors("Item", "up")
+    let deep_recursions = (n / 4).max(40);
+    for i in 0..(n + deep_recursions) {
+        let c = if i < n {
+            gen_case(&mut rng, &schema, &mut stats, 0)
+        } else {
+            let mut r2 = rng.fork();
+            let root = *r2.pick(&["Item", "Box", "Leaf"]);
+            let d = r2.range(2, 5);
+            let hi = *r2.pick(&["", "(hi: 1000)", "(hi: 6)"]);
+            let inner = match r2.range(0, 3) {
+                0 => "id @output".to_string(),
+                1 => "id @output next @optional { id @output(name: \"n\") }".to_string(),
+                2 => format!("... on Item {{ id @output up{hi} @recurse(depth: {}) {{ id @output(name: \"deep\") }} }}", r2.range(2, 4)),
+                _ => "id @output link @fold { id @output(name: \"l\") }".to_string(),
+            };
+            let text = format!("query {{ {root} {{ id @output(name: \"r\") up{hi} @recurse(depth: {d}) {{ {inner} }} }} }}");
+            let indexed = match parse(&schema, &text) {
+                Ok(ix) => ix,
+                Err(e) => {
+                    out.oracle_fail("deep-recursion template was rejected by the frontend", json!({"query": text}), json!({"error": format!("{e:?}")}));
+                    continue;
+                }
+            };
+            out.count("family:deep-implicit-coercion-recursion");
+            EngineCase {
+                dataset: gen_dataset(&mut r2, 9),
+                query_text: text,
+                indexed,
+                args: Arc::new(BTreeMap::new()),
+                features: Default::default(),
+                var_hints: Default::default(),
+            }
+        };
         for f in &c.features {
             out.count(&format!("feat:{f}"));
         }
